@@ -10,7 +10,9 @@ LEVEL = "exploration"
 FOCUS = ("C02",)
 RULE = ("Hypothesis-drawn histories as for C01 but with the C02 part of the mutation catalogue (reward = allowed+1 / "
         "+k / claiming fees the block's transactions do not leave, output 0, output MAX+1, output 2^64-1, outputs = "
-        "inputs+1, total MAX+1) and boundary fees (0, 1, all-but-one) plus legal reward shapes (less, split, no outputs). "
+        "inputs+1, total MAX+1) and boundary fees (0, 1, all-but-one) plus legal reward shapes (less, split, no outputs); a quarter "
+        "of the histories start from a fabricated deep base just below a subsidy halving (heights 1,050,000*k - 1..3 for k in "
+        "{1,2,3,29,30,31,63,64}) so that rewards are judged on both sides of an era boundary. "
         "Oracle: acceptance => reference value clauses (each output and the total in (0,MAX], outputs <= inputs, reward <= "
         "subsidy_ref(h) + fees against the PARENT's reference state); invariant on the code's own per-block maps after "
         "every accept: sum(unspent(b)) <= sum(unspent(parent)) + subsidy(h) and = reference sum and <= cumulative "
@@ -33,7 +35,7 @@ def run(shard, tier, seed):
         n = 25 if tier == "quick" else 400
         nb = (6, 14) if tier == "quick" else (6, 30)
         return chainexec.drive(res, env.subseed(seed, ID, shard["i"]), n, tier, FOCUS, CATS, ID, n_blocks=nb, p_mut=0.4,
-                               p_unusual=0.3)
+                               p_unusual=0.3, p_deep=0.25, deep_halving=True)
     env.import_repo()
     import skepticoin.consensus as C
     MAX = R.MAX_SASHIMI
